@@ -38,6 +38,32 @@ def mutations(sealed: str, rng: random.Random):
             sw = list(lines)
             sw[a], sw[b] = sw[b], sw[a]
             yield "move", "\n".join(sw)
+    # white space at the end of a line INSIDE a literal zone or the frontmatter is content (C05): adding or removing it is tampering
+    fence = None
+    for i in range(0, seal_at):
+        ln = lines[i]
+        fm = re.match(r"^( *)(`{3,})", ln)
+        if fence is None and fm:
+            fence = fm.group(2)
+            continue
+        if fence is not None and fm and fm.group(2) == fence and ln.strip() == fence:
+            fence = None
+            continue
+        if fence is not None:
+            if ln != ln.rstrip():
+                yield "zone-strip-trailing-space", "\n".join(lines[:i] + [ln.rstrip()] + lines[i + 1:])
+            else:
+                yield "zone-add-trailing-space", "\n".join(lines[:i] + [ln + "  "] + lines[i + 1:])
+                yield "zone-add-trailing-tab", "\n".join(lines[:i] + [ln + "\t"] + lines[i + 1:])
+            break
+    if lines and lines[0] == "---":
+        try:
+            close = lines.index("---", 1)
+            for i in range(1, close):
+                yield "frontmatter-trailing-space", "\n".join(lines[:i] + [lines[i] + "  "] + lines[i + 1:])
+                break
+        except ValueError:
+            pass
     # content added AFTER the seal section (the seal covers the whole document, not a prefix of it)
     try:
         end_at = max(i for i, ln in enumerate(lines) if ln == "===END===")
